@@ -61,9 +61,11 @@ def make_scenarios(ctx, count):
         net = G.Net(rng, cfg["mac"])
         style, frames = history(rng, net, cfg["mtu"], rng.randint(20, 60))
         use_flow = rng.random() < 0.25
+        failrc = rng.choice([-1, -1, 1, 3, 255, -9])       # what a failing getter returns: any non-zero value
         for tag, fill, lst in (("a", "165", a), ("b", "256 %d" % rng.randint(1, 10 ** 6), b)):
             s = H.Scenario("%s%d" % (tag, i), meta=dict(frames=frames, cfg=cfg, style=style, pair=i, flow=use_flow))
             s.add("FILL " + fill)
+            s.add("OPT failrc=%d" % failrc)
             s.iface(0, **H.iface_kw(cfg)).glob(**G.global_kw(glob))
             grng = G.rng_for(ctx.seed, "C02gap", i) if i % 2 else None       # the same clock in both runs of the pair
             if grng is not None and grng.random() < 0.5:
